@@ -4,6 +4,7 @@
 #include <stdlib.h>
 #include <deque>
 #include <new>
+#include <valgrind/memcheck.h>
 
 const SutInfo* g_info = 0;
 volatile int g_in_sut = 0;
@@ -25,6 +26,21 @@ void operator delete(void* p) noexcept { if (g_in_sut && p) ++g_allocs_in_sut; f
 void operator delete[](void* p) noexcept { if (g_in_sut && p) ++g_allocs_in_sut; free(p); }
 void operator delete(void* p, size_t) noexcept { if (g_in_sut && p) ++g_allocs_in_sut; free(p); }
 void operator delete[](void* p, size_t) noexcept { if (g_in_sut && p) ++g_allocs_in_sut; free(p); }
+
+#ifdef SIM_WRAP_MALLOC
+// plain builds are linked with -Wl,--wrap=malloc,--wrap=calloc,--wrap=realloc,--wrap=free,... so that C-level
+// allocation from inside the SUT window is counted as well
+extern "C" {
+void* __real_malloc(size_t); void* __real_calloc(size_t, size_t); void* __real_realloc(void*, size_t); void __real_free(void*);
+void* __real_aligned_alloc(size_t, size_t); int __real_posix_memalign(void**, size_t, size_t);
+void* __wrap_malloc(size_t n) { if (g_in_sut) ++g_allocs_in_sut; return __real_malloc(n); }
+void* __wrap_calloc(size_t a, size_t b) { if (g_in_sut) ++g_allocs_in_sut; return __real_calloc(a, b); }
+void* __wrap_realloc(void* p, size_t n) { if (g_in_sut) ++g_allocs_in_sut; return __real_realloc(p, n); }
+void  __wrap_free(void* p) { if (g_in_sut && p) ++g_allocs_in_sut; __real_free(p); }
+void* __wrap_aligned_alloc(size_t a, size_t n) { if (g_in_sut) ++g_allocs_in_sut; return __real_aligned_alloc(a, n); }
+int   __wrap_posix_memalign(void** p, size_t a, size_t n) { if (g_in_sut) ++g_allocs_in_sut; return __real_posix_memalign(p, a, n); }
+}
+#endif
 
 //---------------------------------------------------------------------------------------------
 
@@ -93,7 +109,11 @@ static int pick_slot() {
 	return -1;
 }
 static uint8_t* slot_mem(int s) { return W.arena + static_cast<size_t>(s) * W.slot_size; }
-static void dirty_slot(int s) { uint64_t seed = W.fill_seed ^ (0x1234567ULL * static_cast<uint64_t>(s + 1)); fill_bytes(slot_mem(s), W.slot_size, W.fill_kind, seed); }
+static void dirty_slot(int s) {
+	uint64_t seed = W.fill_seed ^ (0x1234567ULL * static_cast<uint64_t>(s + 1)); fill_bytes(slot_mem(s), W.slot_size, W.fill_kind, seed);
+	// under valgrind memcheck the prior contents are additionally *undefined*: any read the constructors leave to chance is reported
+	if (RUNNING_ON_VALGRIND) { VALGRIND_MAKE_MEM_UNDEFINED(slot_mem(s), W.slot_size); }
+}
 
 //---------------------------------------------------------------------------------------------
 // observation
